@@ -3,6 +3,7 @@ import PyGam.Proofs.Kron
 import PyGam.Proofs.TensorPen
 import Mathlib.Algebra.Order.Ring.Defs
 import Mathlib.Tactic.Positivity
+import PyGam.Gen.Tables
 /-!
 # C04 — smoothing penalties measure exactly the roughness they promise (matrix level)
 
@@ -212,5 +213,23 @@ end terms
 /-- non-vacuity: a concrete instance (n = 5, d = 2, c = squares) evaluates as stated -/
 example : quadForm 5 (derivPen (α := Int) 5 2) (fun k => (k:Int)^2) = 12 := by decide
 example : quadForm 4 (cycPen (α := Int) 4 1) (fun k => (k:Int)) = 12 := by decide
+
+/-! ### tie to the source by translation: `PyGam.Gen` is regenerated from /repo on every run -/
+
+/-- the default difference order of `penalties.derivative` / `periodic` in the source is the one `penMatrix` uses -/
+theorem gen_derivative_order (per : Nat → Nat → Nat → ℚ) (n d : Nat) (h : Gen.derivativeOrderDefault = some d) :
+    penMatrix per n .derivative = derivPen n d := by
+  have h2 : Gen.derivativeOrderDefault = some 2 := rfl
+  rw [h2] at h; cases h; rfl
+
+theorem gen_periodic_order : Gen.periodicOrderDefault = some 2 := by decide
+
+/-- the penalty registry of the source is the one modelled by `PenKind` -/
+theorem gen_penalty_names : Gen.penaltyNames = some ["auto", "derivative", "l2", "none", "periodic"] := by decide
+
+/-- spline terms default to the `'auto'` penalty on a `'ps'` basis (so the default is the second-difference penalty) -/
+theorem gen_term_defaults :
+    Gen.splinePenaltiesDefault = some "auto" ∧ Gen.splineBasisDefault = some "ps" := by
+  decide
 
 end PyGam.C04
